@@ -338,15 +338,15 @@ func checkEvict(c *core.Ctx, rule string) {
 		if fn.Synthetic != "" || fn.Name() != "Commit" || !strings.HasPrefix(core.PkgOf(fn), core.PkgState+"/") || fn.Signature.Recv() == nil {
 			continue
 		}
-		var evictions []ssa.Instruction
-		for _, f := range append([]*ssa.Function{fn}, fn.AnonFuncs...) {
+		evictsIn := func(f *ssa.Function) []ssa.Instruction {
+			var out []ssa.Instruction
 			for _, b := range f.Blocks {
 				for _, in := range b.Instrs {
 					switch x := in.(type) {
 					case *ssa.Call:
 						if bi, ok := x.Call.Value.(*ssa.Builtin); ok && bi.Name() == "delete" {
 							if strings.Contains(core.Path(x.Call.Args[0]), ".") {
-								evictions = append(evictions, x)
+								out = append(out, x)
 							}
 						}
 					case *ssa.Store:
@@ -354,11 +354,27 @@ func checkEvict(c *core.Ctx, rule string) {
 							switch x.Addr.(type) {
 							case *ssa.IndexAddr, *ssa.FieldAddr:
 								if _, isPtr := x.Val.Type().Underlying().(*types.Pointer); isPtr {
-									evictions = append(evictions, x)
+									out = append(out, x)
 								}
 							}
 						}
 					}
+				}
+			}
+			return out
+		}
+		var evictions []ssa.Instruction
+		for _, f := range append([]*ssa.Function{fn}, fn.AnonFuncs...) {
+			evictions = append(evictions, evictsIn(f)...)
+		}
+		// an eviction done by a helper that only Commit calls happens where the helper is called
+		for _, h := range c.Helpers(fn) {
+			if len(evictsIn(h)) == 0 {
+				continue
+			}
+			for _, hs := range core.Sites(fn) {
+				if hs.Common.StaticCallee() == h {
+					evictions = append(evictions, hs.Instr)
 				}
 			}
 		}
